@@ -30,6 +30,18 @@ type Backend struct {
 	Base []string
 	// HostRoot is set for disk roots: the host directory of the root.
 	HostRoot string
+	// RootPath is set for disk backends (root or view): the host directory the backend's FS is rooted in.
+	RootPath string
+}
+
+// RootGone reports that the directory a disk backend is rooted in no longer exists
+// (the filespace removed its own root): cheap scalar state logged with every event.
+func (b *Backend) RootGone() bool {
+	if b.RootPath == "" {
+		return false
+	}
+	_, err := os.Stat(b.RootPath)
+	return os.IsNotExist(err)
 }
 
 // Project returns the abstract tree seen through the backend.  For a child
@@ -224,7 +236,7 @@ func NewBackend(kind string, tmp string) (*Backend, error) {
 			}
 			skip = filepath.Join(rootDir, "v")
 		}
-		return &Backend{Kind: kind, FS: fs, Outside: diskOutside(host, skip), Cleanup: func() { os.RemoveAll(host) }, Root: rootFS, Base: base, HostRoot: hostRoot}, nil
+		return &Backend{Kind: kind, FS: fs, Outside: diskOutside(host, skip), Cleanup: func() { os.RemoveAll(host) }, Root: rootFS, Base: base, HostRoot: hostRoot, RootPath: skip}, nil
 	}
 	return nil, fmt.Errorf("unknown backend %q", kind)
 }
